@@ -241,6 +241,31 @@ func execAddr(c Case) string {
 			return res + " ARGUMENT-MODIFIED"
 		}
 		return res
+	case "custnet": // custnet <prefix> <kind> <hash>: caller-defined network parameters that were never registered
+		net := chaincfg.MainNetParams // a copy
+		net.CashAddressPrefix = string(unhx(a[0]))
+		var ad bchutil.Address
+		var err error
+		if a[1] == "pkh" {
+			ad, err = bchutil.NewAddressPubKeyHash(unhx(a[2]), &net)
+		} else {
+			ad, err = bchutil.NewAddressScriptHashFromHash(unhx(a[2]), &net)
+		}
+		if err != nil {
+			return "ctorerr"
+		}
+		f1 := ad.IsForNet(&net)
+		str := ad.EncodeAddress()
+		f2 := ad.IsForNet(&net) && ad.EncodeAddress() == str && ad.String() != ""
+		f2 = f2 && ad.IsForNet(&net)
+		d, err := bchutil.DecodeAddress(net.CashAddressPrefix+":"+str, &net)
+		if err != nil {
+			return b2s(f1) + " " + b2s(f2) + " E"
+		}
+		f3 := d.IsForNet(&net)
+		re := d.EncodeAddress()
+		f4 := d.IsForNet(&net)
+		return b2s(f1) + " " + b2s(f2) + " " + b2s(f3) + " " + b2s(f4) + " " + b2s(re == str && !d.IsForNet(&chaincfg.TestNet3Params))
 	case "pk2pkh": // pk2pkh <net> <serialized pubkey>
 		pk, err := bchutil.NewAddressPubKey(unhx(a[1]), netIdx(a[0]))
 		if err != nil {
@@ -749,6 +774,15 @@ func genC02(r *Rng, tier string, emit func(Case)) {
 		pl := r.Bytes(r.Pick(20, 20, 20, 0, 1, 19, 21, 32, r.Intn(41)))
 		ls := base58.CheckEncode(pl, ver)
 		e("dec", "legacy", itoa(ni), hs(ls))
+		if i%16 == 0 {
+			// caller-defined, unregistered network parameters: lower-case prefixes work like any network; with a prefix
+			// that is not lower case the constructors still work and IsForNet is stable, only decoding refuses
+			for _, pfx := range []string{"bchx", "x", "testprefix", "BCHX", "bchX"} {
+				for _, kind := range []string{"pkh", "sh"} {
+					e("custnet", "unregistered", hs(pfx), kind, hx(r.Bytes(20)))
+				}
+			}
+		}
 		if i%4 == 0 {
 			// valid strings of every format wrapped in white space / a NUL byte: not the canonical string, rejected
 			for _, w := range []string{" ", "\t", "\n", "\r\n", "\x00"} {
